@@ -278,6 +278,7 @@ func c14Units(tier string, seed int64) []Unit {
 		nfree = 600
 	}
 	units = append(units, freeRunUnit("C14", nfree))
+	units = append(units, litmusUnit())
 	return units
 }
 
